@@ -757,3 +757,8 @@ M('schur-simd-row-pointer-step', 'C13', 'pointer-kernel-contracts',
             px1 += Increment;''')])
 N('schur-simd-mask-rewritten', 'C13',
   [(S_, 'const Index aligned_end = nrow - (nrow & (PacketSize - 1));', 'const Index aligned_end = nrow - (nrow & (Peeling * PacketSize / 2 - 1));')], 'same mask')
+
+M('herm-compute-restarts-from-step-one', 'C01', 'factorization-resumed-at-its-own-dimension',
+  [('HermEigsBase.h', 'm_fac.factorize_from((std::max)(Index(1), m_fac.subspace_dim()), m_ncv, m_nmatop);', 'm_fac.factorize_from(1, m_ncv, m_nmatop);')], 'reverts fix F11')
+M('gen-compute-restarts-from-step-one', 'C02', 'factorization-resumed-at-its-own-dimension',
+  [('GenEigsBase.h', 'm_fac.factorize_from((std::max)(Index(1), m_fac.subspace_dim()), m_ncv, m_nmatop);', 'm_fac.factorize_from(1, m_ncv, m_nmatop);')], 'reverts fix F11')
